@@ -10,18 +10,15 @@ Definition ktype : ustring := u "type".
 Definition kid : ustring := u "id".
 Definition kspec : ustring := u "spec_version".
 
-(* the properties version detection reads are not bound to None (a STIX dict read from JSON
-   with "id": null is not a STIX object); after the first new version no property is *)
-Definition header_ok (d : pdict) : Prop :=
-  forall k, (k = ktype \/ k = kid \/ k = kspec) -> forall v, plookup k d = Some v -> is_none v = false.
-
 (* `type` and `id` are among the unmodifiable properties of the table *)
 Definition tables_ok (T : vtables) : Prop := mem ktype (t_unmod T) = true /\ mem kid (t_unmod T) = true.
 
-(* keyword arguments are distinct, and no operation rewrites spec_version *)
-Definition op_ok (o : op) : Prop :=
+(* keyword arguments are distinct; an operation on a DICT does not rewrite spec_version (which would
+   turn it into an object of the other specification: VersioningRefute.v shows that the statement
+   fails then).  Nothing is asked of operations on objects.                  *)
+Definition op_ok (c : carrier) (o : op) : Prop :=
   match o with
-  | OpNew ch _ => NoDup (keys ch) /\ has_key kspec ch = false
+  | OpNew ch _ => NoDup (keys ch) /\ (c = CDict -> has_key kspec ch = false)
   | _ => True
   end.
 
@@ -37,90 +34,131 @@ Qed.
 Lemma has_key_app : forall k a b, has_key k (a ++ b) = has_key k a || has_key k b.
 Proof. intros. unfold has_key. rewrite plookup_app. now destruct (plookup k a). Qed.
 
+Lemma is_none_true : forall x, is_none x = true -> x = PJ JNull.
+Proof. intros [[]| |]; cbn; intros H; try discriminate; reflexivity. Qed.
+
 Section Chain.
   Variable T : vtables.
   Variable nm : naive_mode.
+  Variable cp : sver -> ustring -> pval -> pval.
+  Variable ck : sver -> pdict -> option string.
 
-  Lemma construct_no_null : forall c d d', construct nm c d = Ok d' ->
-    (forall k v, plookup k d = Some v -> is_none v = false) -> forall k v, plookup k d' = Some v -> is_none v = false.
-  Proof.
-    intros c d d' H NN k v P. unfold construct in H. destruct c as [v0| |]; try (inversion H; subst; now apply NN with k).
-    destruct (plookup (u "modified") d) as [m|]; [|inversion H; subst; now apply NN with k].
-    destruct (parse_ts nm v0 (Some m)) as [[l o]|e]; [|discriminate]. inversion H; subst.
-    destruct (ustr_eqb k (u "modified")) eqn:E.
-    - apply ustr_eqb_eq in E. subst k. rewrite plookup_set_key_same in P. inversion P. reflexivity.
-    - rewrite plookup_set_key_other in P by assumption. now apply NN with k.
-  Qed.
-
-  Lemma new_version_no_null : forall c d ch now d', new_version T nm c d ch now = Ok d' ->
-    forall k v, plookup k d' = Some v -> is_none v = false.
-  Proof.
-    intros c d ch now d' H.
-    destruct (new_version_ok T nm c d ch now d' H) as (v & locked & old & _ & _ & _ & _ & _ & Cases).
-    destruct Cases as [(s & nmv & dlt & _ & _ & _ & _ & CON) | (l & o & _ & _ & CON)];
-      apply (construct_no_null _ _ _ CON); intros k x P; now apply drop_none_no_none in P.
-  Qed.
-
-  Lemma new_version_nodup : forall c d ch now d', NoDup (keys d) -> new_version T nm c d ch now = Ok d' -> NoDup (keys d').
+  Lemma new_version_nodup : forall c d ch now d', NoDup (keys d) -> new_version T nm cp ck c d ch now = Ok d' -> NoDup (keys d').
   Proof.
     intros c d ch now d' ND H.
-    destruct (new_version_ok T nm c d ch now d' H) as (v & locked & old & _ & _ & _ & _ & _ & Cases).
+    destruct (new_version_ok T nm cp ck c d ch now d' H) as (v & locked & old & _ & _ & _ & _ & _ & Cases).
     destruct Cases as [(s & nmv & dlt & _ & _ & _ & _ & CON) | (l & o & _ & _ & CON)];
-      apply (construct_nodup nm _ _ _ CON); apply nodup_drop_none; now apply nodup_update.
+      apply (construct_nodup nm cp ck _ _ _ CON); apply nodup_drop_none; now apply nodup_update.
   Qed.
 
-  (* a header property the change set does not mention is the same in the new version *)
-  Lemma header_kept : forall c d ch now d' k, NoDup (keys d) -> header_ok d ->
-    new_version T nm c d ch now = Ok d' ->
-    (k = ktype \/ k = kid \/ k = kspec) -> has_key k ch = false -> plookup k d' = plookup k d.
-  Proof.
-    intros c d ch now d' k ND HO H HK NK.
-    assert (NM : ustr_eqb k kmod = false) by (destruct HK as [->|[->| ->]]; reflexivity).
-    assert (PG : pget k d = plookup k d).
-    { unfold pget. destruct (plookup k d) as [x|] eqn:E; [|reflexivity]. now rewrite (HO k HK x E). }
-    destruct (new_version_ok T nm c d ch now d' H) as (v & locked & old & _ & _ & _ & _ & _ & Cases).
-    destruct Cases as [(s & nmv & dlt & _ & _ & _ & _ & CON) | (l & o & _ & _ & CON)];
-      rewrite (construct_other nm _ _ _ k CON NM); rewrite plookup_drop_none by (now apply nodup_update);
-      unfold pget; rewrite plookup_update_notin.
-    - exact PG.
-    - exact NK.
-    - exact PG.
-    - rewrite has_key_app, NK. rewrite has_key_cons, NM. reflexivity.
-  Qed.
-
-  Lemma unmod_not_changed : forall c d ch now d' k, new_version T nm c d ch now = Ok d' -> mem k (t_unmod T) = true ->
+  Lemma unmod_not_changed : forall c d ch now d' k, new_version T nm cp ck c d ch now = Ok d' -> mem k (t_unmod T) = true ->
     has_key k ch = false.
   Proof.
     intros c d ch now d' k H M. apply mem_In in M.
-    destruct (new_version_ok T nm c d ch now d' H) as (v & locked & old & _ & _ & _ & EX & _).
+    destruct (new_version_ok T nm cp ck c d ch now d' H) as (v & locked & old & _ & _ & _ & EX & _).
     apply (existsb_has_key_false _ ch k EX). apply in_or_app. now left.
   Qed.
 
-  Lemma detect_stable : forall c d ch now d', NoDup (keys d) -> header_ok d -> tables_ok T ->
-    new_version T nm c d ch now = Ok d' -> has_key kspec ch = false -> detect T d' = detect T d.
+  (* in the new version of a DICT, a header property the change set does not mention is what get()
+     gave before (a binding to None disappears) *)
+  Lemma header_after : forall d ch now d' k, NoDup (keys d) ->
+    new_version T nm cp ck CDict d ch now = Ok d' ->
+    (k = ktype \/ k = kid \/ k = kspec) -> has_key k ch = false -> plookup k d' = pget k d.
   Proof.
-    intros c d ch now d' ND HO [TT TI] H NS.
-    pose proof (header_kept c d ch now d' ktype ND HO H ltac:(auto) (unmod_not_changed _ _ _ _ _ _ H TT)) as E1.
-    pose proof (header_kept c d ch now d' kid ND HO H ltac:(auto) (unmod_not_changed _ _ _ _ _ _ H TI)) as E2.
-    pose proof (header_kept c d ch now d' kspec ND HO H ltac:(auto) NS) as E3.
-    unfold detect, has_key. fold ktype kid kspec. now rewrite E1, E2, E3.
+    intros d ch now d' k ND H HK NK.
+    assert (NM : ustr_eqb k kmod = false) by (destruct HK as [->|[->| ->]]; reflexivity).
+    destruct (new_version_ok T nm cp ck CDict d ch now d' H) as (v & locked & old & _ & _ & _ & _ & _ & Cases).
+    destruct Cases as [(s & nmv & dlt & _ & _ & _ & _ & CON) | (l & o & _ & _ & CON)];
+      apply construct_dict in CON; subst d'; rewrite plookup_drop_none by (now apply nodup_update);
+      unfold pget; rewrite plookup_update_notin; try reflexivity.
+    - exact NK.
+    - rewrite has_key_app, NK. rewrite has_key_cons, NM. reflexivity.
   Qed.
 
-  (* ---- one new_version step keeps the invariant and is strictly later ---- *)
-  Lemma nv_step : forall c d ch now d' v, good_ver v -> tables_ok T ->
-    get_stix_version T c d = Ok v -> NoDup (keys d) -> header_ok d ->
-    NoDup (keys ch) -> has_key kspec ch = false ->
-    new_version T nm c d ch now = Ok d' ->
-    later nm v d d' /\ NoDup (keys d') /\ header_ok d' /\ get_stix_version T c d' = Ok v.
+  (* the detected version of the new dict: the same, or none at all (then nothing more can be done
+     with it); never the other one *)
+  Lemma detect_after : forall d ch now d' v, NoDup (keys d) -> tables_ok T -> good_ver v ->
+    new_version T nm cp ck CDict d ch now = Ok d' -> has_key kspec ch = false ->
+    detect T d = Ok v -> detect T d' = Ok v \/ exists e, detect T d' = Raise e.
   Proof.
-    intros c d ch now d' v GV TO GS ND HO NC NS H.
-    destruct (new_version_ok T nm c d ch now d' H) as (v' & locked & old & CV & _).
+    intros d ch now d' v ND [TT TI] GV H NS D.
+    pose proof (header_after d ch now d' ktype ND H ltac:(auto) (unmod_not_changed _ _ _ _ _ _ H TT)) as E1.
+    pose proof (header_after d ch now d' kid ND H ltac:(auto) (unmod_not_changed _ _ _ _ _ _ H TI)) as E2.
+    pose proof (header_after d ch now d' kspec ND H ltac:(auto) NS) as E3.
+    destruct (new_version_ok T nm cp ck CDict d ch now d' H) as (v' & locked & old & _ & _ & SL & _).
+    unfold pget in E1, E2, E3. unfold detect in D |- *. unfold has_key in D |- *. fold ktype kid kspec in D |- *.
+    rewrite E1, E2, E3. clear E1 E2 E3.
+    destruct (plookup ktype d) as [ty|] eqn:PT; [|discriminate].
+    destruct (is_none ty) eqn:NT; [right; eauto|].
+    destruct (plookup kspec d) as [sv|] eqn:PS.
+    - destruct (is_none sv) eqn:NSV; [|left; exact D].
+      apply is_none_true in NSV. subst sv. cbn [ver_of_value] in D.
+      destruct (match str_of ty with Some s => ustr_eqb s (u "bundle") | None => false end) eqn:B.
+      + inversion D; subst v.
+        destruct (plookup kid d) as [iv|]; [destruct (is_none iv)|]; cbn [negb]; eauto.
+      + inversion D; subst v. destruct GV; discriminate.
+    - destruct (plookup kid d) as [iv|] eqn:PI; cbn [negb] in D |- *; [|left; exact D].
+      destruct (is_none iv) eqn:NI; cbn [negb]; [|left; exact D].
+      destruct (match str_of ty with Some s => ustr_eqb s (u "bundle") | None => false end); [discriminate|].
+      destruct (str_of ty) as [s|] eqn:ST; [|left; exact D].
+      destruct (sco_lookup s (t_sco21 T)) as [contrib|] eqn:SC; [|left; exact D].
+      (* an observable type with "id": None -- but then new_version itself was refused *)
+      exfalso. apply is_none_true in NI. subst iv.
+      destruct ty as [[]| |]; cbn [str_of] in ST; try discriminate. inversion ST; subst s0.
+      unfold sco_locked in SL. unfold detect, has_key in SL. fold ktype kid kspec in SL.
+      rewrite PT, PS, PI in SL. cbn [str_of negb] in SL.
+      destruct (ustr_eqb s (u "bundle")); [discriminate|]. rewrite SC in SL. discriminate.
+  Qed.
+
+  (* ---- one new_version step: strictly later, and the version is kept or lost ---- *)
+  Definition ver_kept (c : carrier) (d' : pdict) (v : sver) : Prop :=
+    get_stix_version T c d' = Ok v \/ exists e, get_stix_version T c d' = Raise e.
+
+  Lemma nv_step : forall c d ch now d' v, good_ver v -> tables_ok T ->
+    get_stix_version T c d = Ok v -> NoDup (keys d) ->
+    NoDup (keys ch) -> (c = CDict -> has_key kspec ch = false) ->
+    new_version T nm cp ck c d ch now = Ok d' ->
+    later nm v d d' /\ NoDup (keys d') /\ ver_kept c d' v.
+  Proof.
+    intros c d ch now d' v GV TO GS ND NC NS H.
+    destruct (new_version_ok T nm cp ck c d ch now d' H) as (v' & locked & old & CV & _).
     pose proof (check_versionable_ver T c d v' CV) as GS'. rewrite GS in GS'. inversion GS'; subst v'.
-    split; [now apply (nv_strict_lemma T nm c d ch now d' v)|].
-    split; [now apply (new_version_nodup c d ch now d')|].
-    split; [intros k _ x P; now apply (new_version_no_null c d ch now d' H k x)|].
-    destruct c as [v0| |]; [exact GS| |exact GS].
-    cbn [get_stix_version] in *. now rewrite (detect_stable CDict d ch now d').
+    split; [exact (nv_strict_lemma T nm cp ck c d ch now d' v GV ND NC CV H)|].
+    split; [exact (new_version_nodup c d ch now d' ND H)|].
+    unfold ver_kept. destruct c as [v0| |]; [left; exact GS| |left; exact GS].
+    cbn [get_stix_version] in *. exact (detect_after d ch now d' v ND TO GV H (NS eq_refl) GS).
+  Qed.
+
+  (* without a detectable version nothing can be versioned *)
+  Lemma no_version_no_new : forall c d e, get_stix_version T c d = Raise e ->
+    forall ch n a, new_version T nm cp ck c d ch n <> Ok a.
+  Proof.
+    intros c d e G ch n a H. destruct (new_version_ok T nm cp ck c d ch n a H) as (v & locked & old & CV & _).
+    apply check_versionable_ver in CV. congruence.
+  Qed.
+
+  (* every operation that yields a new version does so through new_version on the object itself *)
+  Lemma apply_op_needs_new_version : forall c d, (forall ch n a, new_version T nm cp ck c d ch n <> Ok a) ->
+    forall o d', apply_op T nm cp ck c d o <> New d'.
+  Proof.
+    intros c d K o d' H. destruct o; cbn [apply_op] in H.
+    - destruct (new_version T nm cp ck c d changes now) eqn:E; [now apply K in E|discriminate].
+    - destruct (revoke T nm cp ck c d now) eqn:E; [|discriminate]. apply revoke_ok in E. now apply K in E.
+    - unfold add_markings in H. destruct (new_version T nm cp ck c d _ now) eqn:E; [now apply K in E|discriminate].
+    - unfold remove_markings in H. destruct (marking_list d); [discriminate|].
+      destruct (negb _); [discriminate|].
+      destruct (filter _ _).
+      + destruct (new_version T nm cp ck c d _ now) eqn:E; [now apply K in E|discriminate].
+      + destruct (new_version T nm cp ck c d _ now) eqn:E; [now apply K in E|discriminate].
+    - unfold clear_markings in H. destruct (new_version T nm cp ck c d _ now) eqn:E; [now apply K in E|discriminate].
+    - unfold set_markings, clear_markings in H. destruct (new_version T nm cp ck c d _ now1) eqn:E; [now apply K in E|discriminate].
+  Qed.
+
+  Lemma no_version_chain_ends : forall ops c d e, get_stix_version T c d = Raise e -> new_versions T nm cp ck c d ops = [].
+  Proof.
+    induction ops as [|o rest IH]; intros c d e G; cbn [new_versions]; [reflexivity|].
+    destruct (apply_op T nm cp ck c d o) as [d'| |e'] eqn:E; [|now apply IH with e|now apply IH with e].
+    exfalso. apply (apply_op_needs_new_version c d (no_version_no_new c d e G) o d' E).
   Qed.
 
   Lemma marks_ok : forall x, NoDup (keys [(omr, x)]) /\ has_key kspec [(omr, x)] = false.
@@ -130,34 +168,36 @@ Section Chain.
   Proof. split; [constructor; [tauto|constructor]|reflexivity]. Qed.
 
   Lemma op_step : forall c d o d' v, good_ver v -> tables_ok T ->
-    get_stix_version T c d = Ok v -> NoDup (keys d) -> header_ok d -> op_ok o ->
-    apply_op T nm c d o = New d' ->
-    later nm v d d' /\ NoDup (keys d') /\ header_ok d' /\ get_stix_version T c d' = Ok v.
+    get_stix_version T c d = Ok v -> NoDup (keys d) -> op_ok c o ->
+    apply_op T nm cp ck c d o = New d' ->
+    later nm v d d' /\ NoDup (keys d') /\ ver_kept c d' v.
   Proof.
-    intros c d o d' v GV TO GS ND HO OK H.
-    assert (STEP : forall d0 ch n d1, get_stix_version T c d0 = Ok v -> NoDup (keys d0) -> header_ok d0 ->
-                     NoDup (keys ch) /\ has_key kspec ch = false -> new_version T nm c d0 ch n = Ok d1 ->
-                     later nm v d0 d1 /\ NoDup (keys d1) /\ header_ok d1 /\ get_stix_version T c d1 = Ok v).
-    { intros d0 ch n d1 G N Hd [A B] E. now apply (nv_step c d0 ch n d1 v). }
+    intros c d o d' v GV TO GS ND OK H.
+    assert (STEP : forall d0 ch n d1, get_stix_version T c d0 = Ok v -> NoDup (keys d0) ->
+                     NoDup (keys ch) /\ has_key kspec ch = false -> new_version T nm cp ck c d0 ch n = Ok d1 ->
+                     later nm v d0 d1 /\ NoDup (keys d1) /\ ver_kept c d1 v).
+    { intros d0 ch n d1 G N [A B] E. apply (nv_step c d0 ch n d1 v); auto. }
     destruct o; cbn [apply_op] in H.
-    - destruct (new_version T nm c d changes now) eqn:E; inversion H; subst. now apply (STEP d changes now d').
-    - destruct (revoke T nm c d now) eqn:E; inversion H; subst. apply revoke_ok in E.
-      exact (STEP _ _ _ _ GS ND HO revoked_kw_ok E).
-    - unfold add_markings in H. destruct (new_version T nm c d _ now) eqn:E; inversion H; subst.
-      exact (STEP _ _ _ _ GS ND HO (marks_ok _) E).
+    - destruct (new_version T nm cp ck c d changes now) eqn:E; inversion H; subst.
+      destruct OK as [A B]. now apply (nv_step c d changes now d' v).
+    - destruct (revoke T nm cp ck c d now) eqn:E; inversion H; subst. apply revoke_ok in E.
+      exact (STEP _ _ _ _ GS ND revoked_kw_ok E).
+    - unfold add_markings in H. destruct (new_version T nm cp ck c d _ now) eqn:E; inversion H; subst.
+      exact (STEP _ _ _ _ GS ND (marks_ok _) E).
     - unfold remove_markings in H. destruct (marking_list d); [discriminate|].
       destruct (negb _); [discriminate|].
       destruct (filter _ _).
-      + destruct (new_version T nm c d _ now) eqn:E; inversion H; subst. exact (STEP _ _ _ _ GS ND HO (marks_ok _) E).
-      + destruct (new_version T nm c d _ now) eqn:E; inversion H; subst. exact (STEP _ _ _ _ GS ND HO (marks_ok _) E).
-    - unfold clear_markings in H. destruct (new_version T nm c d _ now) eqn:E; inversion H; subst.
-      exact (STEP _ _ _ _ GS ND HO (marks_ok _) E).
+      + destruct (new_version T nm cp ck c d _ now) eqn:E; inversion H; subst. exact (STEP _ _ _ _ GS ND (marks_ok _) E).
+      + destruct (new_version T nm cp ck c d _ now) eqn:E; inversion H; subst. exact (STEP _ _ _ _ GS ND (marks_ok _) E).
+    - unfold clear_markings in H. destruct (new_version T nm cp ck c d _ now) eqn:E; inversion H; subst.
+      exact (STEP _ _ _ _ GS ND (marks_ok _) E).
     - unfold set_markings, clear_markings, add_markings in H.
-      destruct (new_version T nm c d _ now1) as [d1|] eqn:E1; [|discriminate].
-      destruct (new_version T nm c d1 _ now2) as [d2|] eqn:E2; inversion H; subst.
-      destruct (STEP d _ now1 d1 GS ND HO (marks_ok _) E1) as (L1 & N1 & H1 & G1).
-      destruct (STEP d1 _ now2 d' G1 N1 H1 (marks_ok _) E2) as (L2 & N2 & H2 & G2).
-      split; [now apply later_trans with d1|]. auto.
+      destruct (new_version T nm cp ck c d _ now1) as [d1|] eqn:E1; [|discriminate].
+      destruct (new_version T nm cp ck c d1 _ now2) as [d2|] eqn:E2; inversion H; subst.
+      destruct (STEP d _ now1 d1 GS ND (marks_ok _) E1) as (L1 & N1 & [G1|[e G1]]).
+      + destruct (STEP d1 _ now2 d' G1 N1 (marks_ok _) E2) as (L2 & N2 & G2).
+        split; [now apply later_trans with d1|]. auto.
+      + exfalso. exact (no_version_no_new c d1 e G1 _ now2 d' E2).
   Qed.
 
   (* ---- the whole chain ---- *)
@@ -169,24 +209,26 @@ Section Chain.
   Qed.
 
   Theorem chain_increasing_lemma : forall ops c d v, good_ver v -> tables_ok T ->
-    get_stix_version T c d = Ok v -> NoDup (keys d) -> header_ok d -> Forall op_ok ops ->
-    StronglySorted (later nm v) (d :: new_versions T nm c d ops).
+    get_stix_version T c d = Ok v -> NoDup (keys d) -> Forall (op_ok c) ops ->
+    StronglySorted (later nm v) (d :: new_versions T nm cp ck c d ops).
   Proof.
-    induction ops as [|o rest IH]; intros c d v GV TO GS ND HO OK; cbn [new_versions].
+    induction ops as [|o rest IH]; intros c d v GV TO GS ND OK; cbn [new_versions].
     - constructor; constructor.
-    - inversion OK; subst. destruct (apply_op T nm c d o) as [d'| |e] eqn:E.
-      + destruct (op_step c d o d' v GV TO GS ND HO H1 E) as (L & N' & H' & G').
-        apply ssorted_cons_later; [exact L|]. now apply IH.
+    - inversion OK; subst. destruct (apply_op T nm cp ck c d o) as [d'| |e] eqn:E.
+      + destruct (op_step c d o d' v GV TO GS ND H1 E) as (L & N' & [G'|[e G']]).
+        * apply ssorted_cons_later; [exact L|]. now apply IH.
+        * rewrite (no_version_chain_ends rest c d' e G').
+          constructor; [constructor; constructor|]. constructor; [exact L|constructor].
       + now apply IH.
       + now apply IH.
   Qed.
 
   (* once revoked, a chain produces nothing more *)
-  Theorem revoked_chain_lemma : forall ops c d, revoked_flag d = true -> new_versions T nm c d ops = [].
+  Theorem revoked_chain_lemma : forall ops c d, revoked_flag d = true -> new_versions T nm cp ck c d ops = [].
   Proof.
     induction ops as [|o rest IH]; intros c d R; cbn [new_versions]; [reflexivity|].
-    destruct (apply_op T nm c d o) as [d'| |e] eqn:E; [|now apply IH|now apply IH].
-    exfalso. now apply (revoked_final_lemma T nm c d o R d').
+    destruct (apply_op T nm cp ck c d o) as [d'| |e] eqn:E; [|now apply IH|now apply IH].
+    exfalso. now apply (revoked_final_lemma T nm cp ck c d o R d').
   Qed.
 End Chain.
 
@@ -194,10 +236,12 @@ End Chain.
 Lemma spec_unmod_not_modified : forall k, In k spec_unmod -> ustr_eqb k kmod = false.
 Proof. intros k [<-|[<-|[<-|[<-|[]]]]]; reflexivity. Qed.
 
-Theorem nv_identity_spec_lemma : forall T nm c d ch now d' k, subset spec_unmod (t_unmod T) = true ->
-  NoDup (keys d) -> NoDup (keys ch) -> new_version T nm c d ch now = Ok d' -> In k spec_unmod -> pget k d' = pget k d.
+Theorem nv_identity_spec_lemma : forall T nm cp ck c d ch now d' k, subset spec_unmod (t_unmod T) = true ->
+  NoDup (keys d) -> NoDup (keys ch) -> new_version T nm cp ck c d ch now = Ok d' -> In k spec_unmod ->
+  (forall x, pget k d = Some x -> stored cp c k (Some x) = Some x) ->
+  pget k d' = pget k d.
 Proof.
-  intros T nm c d ch now d' k S ND NC H I.
-  apply (nv_identity_lemma T nm c d ch now d' k ND NC H); [|now apply spec_unmod_not_modified].
+  intros T nm cp ck c d ch now d' k S ND NC H I ST.
+  apply (nv_identity_lemma T nm cp ck c d ch now d' k ND NC H); [|now apply spec_unmod_not_modified|exact ST].
   unfold subset in S. rewrite forallb_forall in S. apply mem_In. now apply S.
 Qed.
